@@ -199,6 +199,12 @@ func (r *RowCache) rowsByModels(models []model.Model, useClientIndexes bool) (ma
 				results[uuid] = row
 				continue
 			}
+			// the uuid of no cached row: the model stands for that row
+			// and for no other (a name given to a row to be inserted is
+			// not a uuid and does not count)
+			if ovsdb.IsValidUUID(uuid) {
+				continue
+			}
 		}
 
 		// indexSpecs are ordered, schema indexes go first, then client indexes
@@ -225,10 +231,11 @@ func (r *RowCache) rowsByModels(models []model.Model, useClientIndexes bool) (ma
 						results[uuid] = r.rowByUUID(uuid)
 					}
 				}
-				// Break after handling the first found index
-				// to ensure we preserve index order preference
-				break
 			}
+			// The first usable index decides, whether it has a row for the
+			// model or not: the rows of a later index disagree with the
+			// model on this one
+			break
 		}
 	}
 	if len(results) == 0 {
